@@ -616,6 +616,10 @@ func c17Provenance(p *Prog, r *Report) {
 		}
 	}
 	if len(sites) == 0 || loop == nil {
+		if p.funcCallsDeep(fi, p.keysPred(kContentStore)) && p.funcCallsDeep(fi, p.keysPred(kDirsIterate)) {
+			r.Undecided("C17.a", kStoreSet+"#path", p.pos(fi.Decl), "the content is stored and the directories are iterated in helpers or closures the rule does not follow")
+			return
+		}
 		r.Viol("C17.a", kStoreSet+"#path", p.pos(fi.Decl), "content store call or directory loop not found")
 		return
 	}
